@@ -46,6 +46,8 @@ type inliner struct {
 	bodies     []inlinedBody
 	label      int
 	curImports map[string]string // imports of the file being rewritten: local name -> path
+	count      int               // number of inlinings performed
+	rewritten  map[*ast.FuncDecl]bool
 }
 
 type inlinedBody struct {
@@ -65,7 +67,7 @@ func Inline(pkg *packages.Package, roots ...string) (*InlineResult, error) {
 	if r, ok := inlineCache[key]; ok {
 		return r, nil
 	}
-	in := &inliner{pkg: pkg, info: pkg.TypesInfo, decls: map[*types.Func]*ast.FuncDecl{}, origOf: map[ast.Node]ast.Node{}, inlined: map[string]bool{}}
+	in := &inliner{pkg: pkg, info: pkg.TypesInfo, decls: map[*types.Func]*ast.FuncDecl{}, origOf: map[ast.Node]ast.Node{}, inlined: map[string]bool{}, rewritten: map[*ast.FuncDecl]bool{}}
 	for _, f := range pkg.Syntax {
 		for _, d := range f.Decls {
 			if fd, ok := d.(*ast.FuncDecl); ok {
@@ -116,7 +118,12 @@ func Inline(pkg *packages.Package, roots ...string) (*InlineResult, error) {
 			}
 			cp := in.clone(fd).(*ast.FuncDecl)
 			stack := map[*ast.FuncDecl]bool{fd: true}
+			before := in.count
 			in.rewriteBlock(cp.Body, stack, 0)
+			if in.count == before {
+				continue // nothing was inlined into this function: keep the declaration as written
+			}
+			in.rewritten[cp] = true
 			nf.Decls[j] = cp
 		}
 		files[i] = &nf
@@ -147,7 +154,7 @@ func Inline(pkg *packages.Package, roots ...string) (*InlineResult, error) {
 			if !ok {
 				continue
 			}
-			if _, isCopy := in.origOf[fd]; !isCopy {
+			if !in.rewritten[fd] {
 				continue
 			}
 			ast.Inspect(fd, func(n ast.Node) bool {
@@ -191,7 +198,7 @@ func Inline(pkg *packages.Package, roots ...string) (*InlineResult, error) {
 	for i, f := range files {
 		touched := false
 		for _, d := range f.Decls {
-			if _, isCopy := in.origOf[d]; isCopy {
+			if fd, ok := d.(*ast.FuncDecl); ok && in.rewritten[fd] {
 				touched = true
 			}
 		}
@@ -647,6 +654,7 @@ func (in *inliner) inlineCallStmt0(call *ast.CallExpr, stack map[*ast.FuncDecl]b
 		in.rewriteList(&body.List, nstack, depth+1)
 	}
 	in.inlined[FuncDisplay(f)] = true
+	in.count++
 	return rv, blk
 }
 
@@ -776,5 +784,6 @@ func (in *inliner) inlineExpr(call *ast.CallExpr, stack map[*ast.FuncDecl]bool, 
 		return true
 	})
 	in.inlined[FuncDisplay(f)] = true
+	in.count++
 	return holder
 }
